@@ -22,8 +22,17 @@ def seg_for(r):
 
 
 def check_mutator(ctx, chk, L, name):
+    """the ledger of one mutator, for the level it is called on and for every other level value it acts on"""
+    res = None
+    for V, sfx in L.views(name):
+        r0 = _check_mutator(ctx, chk, V, name, sfx)
+        res = r0 if res is None else res
+    return res
+
+
+def _check_mutator(ctx, chk, L, name, sfx=""):
     b, res, stats = L.paths(name)
-    fn = b.defp
+    fn = b.defp + sfx
     site = b.span
     chk.stats.setdefault("paths", {})[name] = len(res)
     chk.stats.setdefault("walker", {})[name] = {k: v for k, v in stats.items() if k != "opaque"}
